@@ -285,6 +285,7 @@ DICT_KINDS = ["operator", "expvals", "parities", "value_estimate", "layers", "co
 # ---------------------------------------------------------------- world
 class World:
     PID = PID
+    WATCHDOG_S = 60  # a run of this world takes well under a second; beyond this it is a hang
     TIERS = {
         "quick": {"runs": 16000, "budget_s": 45, "determinism_seeds": 16, "chunk": 200},
         "thorough": {"runs": 1500000, "budget_s": 900, "determinism_seeds": 200, "chunk": 500},
